@@ -128,7 +128,7 @@ def exercise(state, evt, role, artim_pre, var, before=None):
             'inds': [e[1] for e in sim.log if e[0] == 'ind'],
             'closed': ('close',) in sim.log,
             'connect': [e[1] for e in sim.log if e[0] == 'connect'],
-            'artim': p.timer.sim_started is not None, 'artim_start': p.timer.sim_started,
+            'artim': sim.timer_started() is not None, 'artim_start': sim.timer_started(),
             'now': sim.now, 'dul_socket_none': p.dul_socket is None, 'had_transport': has_transport,
         }
 
